@@ -281,6 +281,124 @@ func gen(c *hx.Ctx) {
 		}
 	}
 
+	// 1b'. capacity history: the stream was filled by one Write of the whole input, so with inputs of 64 KiB .. 1 MiB its buffer
+	// is large while the unread rest shrinks from call to call; every case is also replayed with a Tidy() at every split point
+	// (tidyCheck in main.go), i.e. grow - drain to a small or a large unread rest - Tidy - continued decoding.
+	//  (i)   two or three records of 64 KiB and more back to back, small values between and behind them;
+	//  (ii)  a big record followed by a large unread rest: a second record of 16383 / 16384 / 16385 / 40000 / 65536 bytes;
+	//  (iii) the input drained by raw reads in chunks (16 KiB, 64 KiB, 70000) the way a copy loop does, small values at the end;
+	//  (iv)  calls on fresh streams positioned around 64 KiB and just before the end of a big input.
+	capBig := []int{65536, 65537, 70000, 131072}
+	if c.Thorough() {
+		capBig = append(capBig, 200000, 262144, 1<<20-1, 1<<20+1)
+	}
+	small := func(add func([]byte, string)) {
+		switch c.Rng.Intn(5) {
+		case 0:
+			add([]byte{byte(c.Rng.U64())}, "byte")
+		case 1:
+			add(le(c.Rng.U64(), 4), "i32")
+		case 2:
+			add(append(leb(3), 'x', 'y', 'z'), "str")
+		case 3:
+			add(leb(uint32(c.Rng.U64())>>uint(c.Rng.Intn(32))), "v7")
+		default:
+			add(le(c.Rng.U64(), 8), "i64")
+		}
+	}
+	bigOp := func() string { return pickS(c, []string{"bytes", "str"}) }
+	for i := 0; i < c.Budget(3, 24); i++ { // (i)
+		var input []byte
+		var ops []string
+		add := func(b []byte, o string) { input = append(input, b...); ops = append(ops, o) }
+		if c.Rng.Bool() {
+			small(add)
+		}
+		total := 0
+		for k := c.Rng.Range(2, 3); k > 0; k-- {
+			n := capBig[c.Rng.Intn(len(capBig))]
+			if total+n > 1<<20+200000 {
+				n = 65537
+			}
+			total += n
+			add(append(leb(uint32(n)), biasedBytes(c, n)...), bigOp())
+			for m := c.Rng.Intn(3); m > 0; m-- {
+				small(add)
+			}
+		}
+		ops = append(ops, "i32")
+		emit(c, "%s | %s", hexOf(input), strings.Join(ops, " ; "))
+		c.Count("big_records_back_to_back")
+	}
+	for i, rest := range []int{16383, 16384, 16385, 40000, 65536} { // (ii)
+		for j, n := range capBig {
+			if !c.Thorough() && j != i%len(capBig) {
+				continue
+			}
+			var input []byte
+			var ops []string
+			add := func(b []byte, o string) { input = append(input, b...); ops = append(ops, o) }
+			small(add)
+			add(append(leb(uint32(n)), biasedBytes(c, n)...), bigOp())
+			// the second record without its prefix bytes and the trailing value make the rest exactly `rest` bytes at i%2 == 0
+			m := rest - 4
+			if i%2 == 0 {
+				m -= len(leb(uint32(m)))
+			}
+			add(append(leb(uint32(m)), biasedBytes(c, m)...), bigOp())
+			add(le(c.Rng.U64(), 4), "i32")
+			ops = append(ops, "byte")
+			emit(c, "%s | %s", hexOf(input), strings.Join(ops, " ; "))
+			c.Count("big_record_then_large_unread_rest")
+		}
+	}
+	for i, chunk := range []int{16384, 65536, 70000} { // (iii)
+		for j, n := range capBig {
+			if !c.Thorough() && j != (i+1)%len(capBig) {
+				continue
+			}
+			var tailIn []byte
+			var tailOps []string
+			add := func(b []byte, o string) { tailIn = append(tailIn, b...); tailOps = append(tailOps, o) }
+			for k := c.Rng.Range(1, 4); k > 0; k-- {
+				small(add)
+			}
+			body := n / chunk * chunk // whole chunks, then the small values
+			if body == 0 {
+				body = chunk
+			}
+			input := append(biasedBytes(c, body), tailIn...)
+			var ops []string
+			for k := body / chunk; k > 0; k-- {
+				ops = append(ops, "raw"+strconv.Itoa(chunk))
+			}
+			ops = append(ops, tailOps...)
+			ops = append(ops, "raw"+strconv.Itoa(chunk), "byte")
+			emit(c, "%s | %s", hexOf(input), strings.Join(ops, " ; "))
+			c.Count("big_input_drained_in_raw_chunks")
+		}
+	}
+	for _, n := range capBig { // (iv)
+		if !c.Thorough() && n != 70000 && n != 131072 {
+			continue
+		}
+		input := append(leb(uint32(n)), biasedBytes(c, n)...)
+		input = append(input, le(c.Rng.U64(), 4)...)
+		input = append(input, append(leb(5), 'h', 'e', 'l', 'l', 'o')...)
+		end := len(input)
+		var ops []string
+		for _, k := range []int{65535, 65536, 65537, end - 10, end - 6, end - 3, end - 1, end} {
+			if k < 0 || k > end {
+				continue
+			}
+			at := "@" + strconv.Itoa(k) + " "
+			ops = append(ops, at+"i32", "str", at+"bytes", at+"raw8", "byte")
+		}
+		ops = append(ops, "@0 "+bigOp(), "i32", "str", "byte")
+		emit(c, "%s | %s", hexOf(input), strings.Join(ops, " ; "))
+		c.Count("big_input_fresh_positions_around_64KiB_and_end")
+	}
+
 	// 1c. hash collisions: length-prefixed values whose contents are distinct equal-length strings colliding under the usual
 	// cheap 32-bit hashes (and 16-bit truncations), decoded back-to-back and interleaved by one reader
 	collisionLens := []int{3, 4, 5, 6, 7, 8, 9, 10, 11, 12, 13, 14, 15, 16, 17, 24, 33, 64}
